@@ -564,6 +564,49 @@ func (ex *Ex) BuildSMT(q *Query, rounds int) string {
 	asserts = append(asserts, ex.quantifiedUnfolds(asserts, q.Heap)...)
 	facts, tdefs := ex.typeFacts(asserts)
 	asserts = append(asserts, facts...)
+	// results of spec functions declared with an interface type have that interface's methods
+	for _, app := range groundApps(asserts, func(op string) bool { return strings.HasPrefix(op, "f$") }) {
+		if f := w.SpecFuncs[strings.TrimPrefix(app.Op, "f$")]; f != nil && app.S.Eq(SIface) {
+			if rt, err := w.ResolveType(f.Ret, f.PkgName); err == nil && rt.G != nil {
+				if fact := ex.ifaceTypeFact(app, rt.G); fact != nil {
+					asserts = append(asserts, fact)
+				}
+			}
+		}
+	}
+	// interface values are well-formed: a nil dynamic type means the nil interface
+	{
+		seen := map[string]bool{}
+		var wf []*T
+		var rec func(t *T, bound map[string]bool)
+		rec = func(t *T, bound map[string]bool) {
+			if t.Kind == kQuant {
+				nb := map[string]bool{}
+				for k := range bound {
+					nb[k] = true
+				}
+				for _, v := range t.QVars {
+					nb[v.Op] = true
+				}
+				rec(t.Args[0], nb)
+				return
+			}
+			if t.S != nil && t.S.Eq(SIface) && (t.Kind == kVar || (t.Kind == kApp && t.Op != "mkI" && t.Op != "ite")) && !containsBound(t, bound) {
+				k := t.String()
+				if !seen[k] {
+					seen[k] = true
+					wf = append(wf, Implies(Eq(Dyn(t), IntLit(0)), Eq(t, NilIface)))
+				}
+			}
+			for _, a := range t.Args {
+				rec(a, bound)
+			}
+		}
+		for _, a := range asserts {
+			rec(a, map[string]bool{})
+		}
+		asserts = append(asserts, wf...)
+	}
 	// slice lengths are non-negative
 	for _, la := range groundApps(asserts, func(op string) bool { return strings.HasPrefix(op, "len$Slice$") }) {
 		asserts = append(asserts, Ge(la, IntLit(0)))
